@@ -115,19 +115,40 @@ theorem romanWhile_eq : ∀ (f n i : Nat) (r : List Text),
         simp only [Except.map, bind, Except.bind, hi]
         exact romanWhile_eq f (n / 10) (i + 1) r'
 
+theorem liftErr_ok {α : Type} (x : α) : liftErr (Except.ok x : Except PyErr α) = .ok x := rfl
+
+theorem pyIndex_three {α : Type} (l : List α) : pyIndex l 3 = ofOpt l[3]? := pyIndex_cast l 3
+
+theorem roman_init_eq (n : Nat) :
+    format_int_roman_init (n : Int) = .ok (((n / 1000 : Nat) : Int), ((n % 1000 : Nat) : Int), 0, []) := by
+  unfold format_int_roman_init
+  have h1 : pyDiv (n : Int) 1000 = ((n / 1000 : Nat) : Int) := fdiv_nat n 1000
+  have h2 : pyMod (n : Int) 1000 = ((n % 1000 : Nat) : Int) := fmod_nat n 1000
+  simp only [h1, h2]
+
+theorem roman_post_eq (k : Nat) (r : List Text) :
+    liftErr (format_int_roman_post (k : Int) r) =
+      (listGet ROMAN_ONES 3).bind (fun m => .ok ((rep m k :: r).flatten)) := by
+  unfold format_int_roman_post
+  simp only [pyIndex_three, listGet_eq, pyRepeat_nat, pyInsert_zero]
+  cases ROMAN_ONES[3]? <;> rfl
+
 /-- `format_int_roman` assembled from the translated pieces = the hand model, for EVERY integer. -/
 theorem genFormatIntRoman_eq (v : Int) : genFormatIntRoman v = formatIntRoman v := by
   unfold genFormatIntRoman formatIntRoman format_int_roman_pre
-  by_cases h : 0 < v ∧ v < 4000
+  by_cases h : 0 < v
   · have hv : v = (v.toNat : Int) := by omega
-    have := romanWhile_eq 4 v.toNat 0 []
-    simp only [Int.natCast_zero] at this
-    rw [← hv] at this
-    simp only [h.1, h.2, decide_true, Bool.and_self, if_true, and_self, this]
-    rfl
-  · have : (decide (0 < v) && decide (v < 4000)) = false := by
-      simp only [Bool.and_eq_false_iff, decide_eq_false_iff_not]; omega
-    simp [h, this]
+    have hw := romanWhile_eq 3 (v.toNat % 1000) 0 []
+    simp only [Int.natCast_zero] at hw
+    simp only [gt_iff_lt, h, decide_true, if_true]
+    rw [hv, roman_init_eq]
+    simp only [liftErr_ok, hw, Int.toNat_natCast]
+    cases romanLoop 3 (v.toNat % 1000) 0 [] with
+    | error e => rfl
+    | ok r' =>
+      simp only [roman_post_eq]
+      rfl
+  · simp [h]
 
 /-! ### letters -/
 
@@ -157,12 +178,17 @@ theorem alpha_body_eq (n : Nat) (h : 0 < n) (r : List Text) :
   rw [pyStrIndex_letters _ (by omega)]
   rfl
 
+/-- `result.reverse(); "".join(result)` -/
+def alphaPost (r : List Text) : Text := r.reverse.flatten
+
+theorem alpha_post_eq (r : List Text) : format_int_alpha_post r = .ok (alphaPost r) := rfl
+
 theorem alpha_post_snoc (r : List Text) (c : Nat) :
-    format_int_alpha_post (r ++ [[c]]) = c :: format_int_alpha_post r := by
-  simp [format_int_alpha_post]
+    alphaPost (r ++ [[c]]) = c :: alphaPost r := by
+  simp [alphaPost]
 
 theorem alphaWhile_eq : ∀ (f n : Nat) (r : List Text),
-    (alphaWhile f (n : Int) r).map format_int_alpha_post = .ok (alphaLoop f n (format_int_alpha_post r))
+    (alphaWhile f (n : Int) r).map alphaPost = .ok (alphaLoop f n (alphaPost r))
   | 0, n, r => by simp [alphaWhile, alphaLoop, Except.map]
   | f + 1, n, r => by
     unfold alphaWhile alphaLoop format_int_alpha_cond
@@ -180,8 +206,15 @@ theorem genFormatIntAlpha_eq (v : Int) : genFormatIntAlpha v = formatIntAlpha v 
   · have hv : v = (v.toNat : Int) := by omega
     have := alphaWhile_eq v.toNat v.toNat []
     rw [← hv] at this
-    have hp : format_int_alpha_post [] = [] := rfl
-    simp only [gt_iff_lt, h, decide_true, if_true, this, hp]
+    have hp : alphaPost [] = [] := rfl
+    have hi : liftErr (format_int_alpha_init v) = .ok (v, []) := rfl
+    simp only [gt_iff_lt, h, decide_true, if_true, hi]
+    cases hw : alphaWhile v.toNat v [] with
+    | error e => rw [hw] at this; simp [Except.map] at this
+    | ok r' =>
+      rw [hw] at this
+      simp only [Except.map, Except.ok.injEq, hp] at this
+      simp only [alpha_post_eq, liftErr, this]
   · simp [h]
 
 end PdfVerif.Lemmas.LabelsGen
